@@ -367,8 +367,44 @@ func genIso(r *kit.Rand, kind string, big bool) []string {
 
 // ---------------------------------------------------------------------------------------------
 
+// exhaustiveGid: ONE case holding every key over a tiny structural alphabet, so that the driver judges ALL pairs:
+// every collision the real ToGroupID has there must be the recorded deviation, every other pair must be told apart.
+func exhaustiveGid(alpha []string, maxLen int, star bool) []string {
+	vals := []string{""}
+	for l, prev := 1, []string{""}; l <= maxLen; l++ {
+		var next []string
+		for _, p := range prev {
+			for _, a := range alpha {
+				next = append(next, p+a)
+			}
+		}
+		vals = append(vals, next...)
+		prev = next
+	}
+	var ls []string
+	for _, v1 := range vals {
+		if star { // groupBy(*): a point that has only tag a, against points that have a and b
+			ls = append(ls, gidLine(false, "m", []string{"a"}, map[string]string{"a": v1}))
+		}
+		for _, v2 := range vals {
+			ls = append(ls, gidLine(false, "m", []string{"a", "b"}, map[string]string{"a": v1, "b": v2}))
+		}
+	}
+	return ls
+}
+
 func generate(out *kit.Out, f kit.Flags) {
 	r := kit.NewRand(f.Seed)
+	if f.Extra["only"] == "" {
+		if f.Tier == "thorough" {
+			emit(out, "x-gid-4x2", execCase(exhaustiveGid([]string{",", "=", "b", "x"}, 2, false)))
+			emit(out, "x-gid-3x3", execCase(exhaustiveGid([]string{",", "=", "b"}, 3, false)))
+			emit(out, "x-gid-star", execCase(exhaustiveGid([]string{",", "=", "b"}, 3, true)))
+		} else {
+			emit(out, "x-gid-3x2", execCase(exhaustiveGid([]string{",", "=", "b"}, 2, false)))
+			emit(out, "x-gid-star", execCase(exhaustiveGid([]string{",", "=", "b"}, 2, true)))
+		}
+	}
 	only := f.Extra["only"]
 	ki := 0
 	for i := 0; i < f.N; i++ {
